@@ -35,7 +35,8 @@ def gen_case(seed):
             elif x < 0.62: ops.append(f"del {c} {xs(r.choice(KEYS))}")
             elif x < 0.66: ops.append(f"{r.choice(['churn', 'churnd'])} {c} {r.randint(2, 12)} {xs(r.choice(['a/b', 'b', 'g/x']))}")
             elif x < 0.72: ops.append(f"pdel {c} {xs(r.choice(PATS))}")
-            elif x < 0.82: ops.append(f"set {c} {xs(gg(c))} {js([r.choice(PATS + [f'own{c}/#']) for _ in range(r.randint(0, 2))])}")
+            elif x < 0.80: ops.append(f"set {c} {xs(gg(c))} {js([r.choice(PATS + [f'own{c}/#']) for _ in range(r.randint(0, 2))])}")
+            elif x < 0.82: ops.append(f"del {c} {xs(r.choice([gg(c), lw(c)]))}")            # a registration is withdrawn (F28)
             elif x < 0.92: ops.append(f"set {c} {xs(lw(c))} {js([{'key': r.choice([f'own{c}/x', f'own{c}/y/z', f'lwz{c}']), 'value': val()} for _ in range(r.randint(0, 2))])}")
             else:
                 connected.discard(c); ops.append(f"disc {c}")
@@ -120,6 +121,15 @@ def run(v, tier, seed):
     work = os.path.join(WORK, ID); os.makedirs(work, exist_ok=True)
     n = 24 if tier == "quick" else 500
     cases = [("F13-cas-version", ["node ReDB", "conn 1", f"cset 1 {xs('k')} {js(1)} 0", f"cset 1 {xs('k')} {js(2)} 1", f"cset 1 {xs('k')} {js(3)} 2", "settle", "dump leader", "stop", "start", "dump leader"])]
+    # F28 (repaired): a client registers grave goods and withdraws them by deleting the registration key; a key the pattern
+    # covers is written AFTERWARDS, between two marker keys.  After a kill the recovered state must come from a prefix of
+    # [m, +gg, -gg, x/a, n]: m and n without x/a is none of them -- it is what the server recovered before the repair, when the
+    # withdrawn entry stayed in the ReDB registration table and was applied at the start
+    f28 = ["node ReDB", "conn 1", "conn 2", f"set 2 {xs('m')} {js(1)}", f"set 1 {xs(gg(1))} {js(['x/#'])}", f"del 1 {xs(gg(1))}",
+           f"set 2 {xs('x/a')} {js(1)}", f"set 2 {xs('n')} {js(1)}", "settle", "dump leader", "kill", "start", "dump leader"]
+    f28lw = ["node ReDB", "conn 1", "conn 2", f"set 2 {xs('m')} {js(1)}", f"set 1 {xs(lw(1))} {js([{'key': 'w', 'value': 'bye'}])}", f"del 1 {xs(lw(1))}",
+             f"set 2 {xs('n')} {js(1)}", "settle", "dump leader", "kill", "start", "dump leader"]
+    cases += [("F28-withdrawn-grave-goods", f28), ("F28-withdrawn-last-will", f28lw)]
     cases += [(f"r{i}", gen_case(seed * 67867967 + i)) for i in range(n)]
     cpath = os.path.join(work, "cases.txt")
     write_cases(cpath, cases)
@@ -143,14 +153,23 @@ def run(v, tier, seed):
         lines = A.get(nm, [])
         kills += sum(1 for o in ops if o == "kill"); stops += sum(1 for o in ops if o == "stop")
         if "kill" in ops and lines and c11.parse_dump(lines[-1]):
-            j = sum(1 for k in parse_user(lines[-1]) if k.startswith("p/")); b = next(int(o.split(" ")[2]) for o in ops if o.startswith("burst"))
-            cuts.append((j, b))
+            j = sum(1 for k in parse_user(lines[-1]) if k.startswith("p/")); b = next((int(o.split(" ")[2]) for o in ops if o.startswith("burst")), 0)
+            if b: cuts.append((j, b))
             if 0 < j < b: nontrivial.add(nm)
         bad = prefix_oracle(ops, lines, known=v.known)
         if bad:
             step, msg = bad
             v.violation({"what": msg, "case": nm, "engine": "cluster", "driver": "redb_driver", "ops": ops[:step + 1], "ops_readable": [decode_tok(o) for o in ops[:step + 1]]})
             if len(v.violations) >= 3: break
+    if diffs and not v.violations:
+        nm, step, x, y = diffs[0]
+        ops = dict(cases)[nm]
+        if nm.startswith("F28-"):
+            # the corpus case of a repaired defect: the failing input is known
+            v.violation({"what": "a grave goods / last will registration that had been withdrawn (its key deleted) was applied at the start after a kill: the recovered state is no prefix of what the server had applied (F28 is back)",
+                         "case": nm, "engine": "cluster", "driver": "redb_driver", "ops": ops[:step + 1], "ops_readable": [decode_tok(o) for o in ops[:step + 1]],
+                         "recovered": decode_tok(x)[:1500], "allowed": decode_tok(y)[:3000]})
+            diffs = diffs[1:]
     if diffs and not v.violations:
         nm, step, x, y = diffs[0]
         ops = dict(cases)[nm]
